@@ -40,21 +40,37 @@ private theorem allCaught_of (cfg : Cfg) (hf : cfg.failsafe = true)
     (h : raisable.all (fun k => cfg.caught.contains k) = true) : allCaught cfg := by
   refine ⟨hf, fun e => ?_⟩
   simp only [raisable, List.all_cons, List.all_nil, Bool.and_true, Bool.and_eq_true] at h
+  intro hne
   cases e
   · exact h.1
   · exact h.2.1
   · exact h.2.2.1
   · exact h.2.2.2
+  · exact absurd rfl hne
 
-/-- **Failsafe never raises** — for EVERY document (any nesting, any number and kind of damaged positions): the
-    JSON reader returns a result, namely the identifiables that can be read, each decoded on its own. -/
-theorem c09_json_failsafe_total (items : List DWire) :
+/-- **Failsafe never raises** — for EVERY document (any nesting, any number and kind of damaged positions) whose damaged
+    positions raise documented kinds (`noOtherL`: the SPEC assumption `raisable` about the conversions of `datatypes` and the
+    model constructors; the correspondence run reports a conversion that raises anything else as a broken tie): the JSON
+    reader returns a result, namely the identifiables that can be read, each decoded on its own. -/
+theorem c09_json_failsafe_total (items : List DWire) (hdoc : noOtherL items = true) :
     decTop Gen.Json.jsonTable (jsonCfg true) items = .ok (survivors Gen.Json.jsonTable (jsonCfg true) items) :=
-  decTop_eq_survivors _ _ (allCaught_of _ rfl c09_json_catch_covers) items
+  decTop_eq_survivors _ _ (allCaught_of _ rfl c09_json_catch_covers) items hdoc
 
-theorem c09_xml_failsafe_total (items : List DWire) :
+theorem c09_xml_failsafe_total (items : List DWire) (hdoc : noOtherL items = true) :
     decTop Gen.Xml.xmlTable (xmlCfg true) items = .ok (survivors Gen.Xml.xmlTable (xmlCfg true) items) :=
-  decTop_eq_survivors _ _ (allCaught_of _ rfl c09_xml_catch_covers) items
+  decTop_eq_survivors _ _ (allCaught_of _ rfl c09_xml_catch_covers) items hdoc
+
+/-- The readers add no undocumented exception of their own: whatever leaves the reading of a document in which every
+    damaged position raises a documented kind, is a documented kind — in failsafe AND in strict mode. -/
+theorem c09_errors_documented (T : Table) (cfg : Cfg) (s : Bool) (ir : Bool × List EKind) (k : Kind) (w : DWire) (e : EKind)
+    (hdoc : noOther w = true) (h : decD T cfg s ir k w = .error e) : e ≠ .other :=
+  decD_err T cfg s ir k w e hdoc h
+
+/-- … and the hypothesis is needed: an undocumented exception at a damaged position is caught by no handler and leaves
+    even the failsafe reader (the model exhibits the escape that the oracle looks for). -/
+theorem c09_undocumented_escapes :
+    decTop Gen.Json.jsonTable (jsonCfg true) [.obj (some "Submodel") [("id", .bad .other)]] = .error .other := by
+  rfl
 
 /-- **Isolation**: what is returned for the other identifiables does not depend on a damaged one — the result of a
     document is the concatenation of the results of its items. -/
